@@ -147,7 +147,12 @@ class Worker:
         if p is None: return x.M(m.name), 0
         if p == 'iv16': return x.M(m.name, hex=bytes(r.randrange(256) for _ in range(16)).hex()), 0
         if p == 'iv8': return x.M(m.name, hex=bytes(r.randrange(256) for _ in range(8)).hex()), 0
-        if p == 'ctr': return x.M(m.name, ctr={'bits': r.choice([128, 64, 32]), 'cb': bytes(r.randrange(256) for _ in range(16)).hex()}), 0
+        if p == 'ctr':
+            # narrow counters (and counter blocks close to wrapping) bring the mechanism's data limit within reach of these messages: a size query or a too-small buffer must not use it up
+            bits = r.choice([128, 64, 32, 8, 4, 3, 2, 1, 5]); cb = bytearray(r.randrange(256) for _ in range(16))
+            if bits <= 8 and r.random() < 0.5:
+                left = r.choice([1, 2, 4]); v = (int.from_bytes(cb, 'big') & ~((1 << bits) - 1)) | (((1 << bits) - left) & ((1 << bits) - 1)); cb = bytearray(v.to_bytes(16, 'big'))
+            return x.M(m.name, ctr={'bits': bits, 'cb': bytes(cb).hex()}), 0
         if p == 'gcm':
             tb = r.choice([128, 128, 96, 64]); return x.M(m.name, gcm={'iv': bytes(r.randrange(256) for _ in range(12)).hex(), 'aad': bytes(r.randrange(256) for _ in range(r.choice([0, 0, 5, 20]))).hex(), 'tagbits': tb}), tb // 8
         if p == 'oaep': return x.M(m.name, oaep={'hash': ck.CKM_SHA_1, 'mgf': ck.CKG_MGF1_SHA1, 'source': 1}), 0
@@ -207,7 +212,7 @@ class Worker:
         multi = m.multi and r.random() < 0.65
         # ---- input
         if m.sym:
-            b = m.block; n = r.choice([0, 1, b - 1, b, b + 1, 2 * b - 1, 2 * b, 2 * b + 1, 3 * b, 5 * b + 3])
+            b = m.block; n = r.choice([0, 1, b - 1, b, b + 1, 2 * b - 1, 2 * b, 2 * b + 1, 3 * b, 5 * b + 3] + ([4 * b, 8 * b, 16 * b, 2 * b, 4 * b] if m.params == 'ctr' else []))
             if m.cls == 'block-nopad': n = (n // b) * b + ((r.randrange(1, b)) if fail else 0)
             data = s.rbytes(n)
             if kind == 'decrypt':
@@ -515,11 +520,11 @@ def run(ctx):
     ctx.rule = ('one evaluation = one judged step of an interleaving (Init, second Init, continue without Init, Update / Final / one-shot with a chosen buffer discipline, probe after an operation ended, '
                 'twin comparison of a disturbed operation); distinct = (operation kind, mechanism class, step kind, buffer class); non-trivial = an operation was active or had just ended '
                 '(Init refused for reasons outside the property and argument rejections are counted as trivial)')
-    cfgs = ctx.q(('asan',), ('asan', 'botan')); ctx.need(*cfgs)
-    total = ctx.q(3000, 60000); jobs = []
+    cfgs = ('asan', 'botan'); ctx.need(*cfgs)      # (quick: a sixth of the interleavings on the Botan build)
+    total = ctx.q(12000, 60000); jobs = []
     for cfg in cfgs:
         n_cfg = total if cfg == 'asan' else total // 6
-        njobs = ctx.q(32, 96) if cfg == 'asan' else 32
+        njobs = ctx.q(32, 96) if cfg == 'asan' else ctx.q(8, 32)
         per = (n_cfg + njobs - 1) // njobs
         for i in range(njobs):
             jobs.append(dict(paths=ctx.paths, hdr=ctx.paths[cfg]['hdr'], cfg=cfg, scratch=ctx.scratch, seed=ctx.seed * 1000003 + len(jobs), n=per, backend='file' if i % 4 else 'db', first=(i == 0)))
